@@ -139,10 +139,7 @@ def set_config(config_path: PathStr, arg_list: typing.Sequence[str]) -> None:
                 if value in config.keys():
                     break
                 if is_number(value):
-                    if int(float(value)) - float(value) != 0:
-                        values.append(float(value))
-                    else:
-                        values.append(int(float(value)))
+                    values.append(to_number(value))
                 else:
                     values.append(value)
             config[arg] = finalize_values(config, arg, values)
@@ -159,9 +156,13 @@ def is_option(token: str) -> bool:
 
 
 def to_number(token: str) -> typing.Union[int, float]:
-    # Keep integers integral, e.g. for options parsed with type=int.
-    number = float(token)
-    return int(number) if number.is_integer() else number
+    # Keep integers integral, e.g. for options parsed with type=int,
+    # and exact (not every integer above 2**53 is a float).
+    try:
+        return int(token)
+    except ValueError:
+        number = float(token)
+        return int(number) if number.is_integer() else number
 
 
 def generate(arg_list: typing.Sequence[str]) -> typing.Dict[str, typing.Any]:
